@@ -28,7 +28,9 @@ var opqRe = regexp.MustCompile(`‹[^›]*›[0-9]+`)
 var callNoRe = regexp.MustCompile(`\(\)#[0-9]+\.[0-9]+`)
 
 // valueSig renders a stored value with every parse source erased:
-//   $F float parse, $I integer parse, $T tolerant float parse, $S raw text;
+//
+//	$F float parse, $I integer parse, $T tolerant float parse, $S raw text;
+//
 // cells of the model/record structs are kept (they are dependencies).
 var sigUnify bool // erase the parse kind too (readers that go through local records)
 
@@ -234,68 +236,8 @@ func sigSet(ss []sibStore) []string {
 
 func c13Guards(p *Prog, r *Report) {
 	r.Rule("C13.crop-state", "the two crop-parameter readers reset and keep the same model state: every reset (store of a constant) covers the same index range under the same perennial/continuation guards in both readers", 10)
-	type reset struct {
-		dest, rng, guards, val, pos string
-	}
-	collect := func(key string) map[string]reset {
-		x := walked(p, key)
-		out := map[string]reset{}
-		if x == nil {
-			return out
-		}
-		// the perennial flag is tested through its forwarded (reader-specific) value: map it back
-		flagKey := ""
-		for _, e := range x.Events {
-			if e.Kind == "assign" && e.Root == "GlobalVarsMain.DAUERKULT" {
-				flagKey = strings.TrimPrefix(stripVersions(e.Val).String(), "")
-			}
-		}
-		for _, e := range x.Events {
-			if e.Kind != "assign" || !(strings.HasPrefix(e.Root, "GlobalVarsMain.") || strings.HasPrefix(e.Root, "CropSharedVars.")) {
-				continue
-			}
-			if _, isC := e.Val.Const(); !isC {
-				continue
-			}
-			// index ranges
-			var rg []string
-			for _, ix := range e.Idx {
-				done := false
-				for _, L := range e.Loops {
-					if L.Var != nil && ix.Equal(PAtom(L.Var)) {
-						lo, hi, unit, why := loopBounds(x, L)
-						if why == "" && unit {
-							rg = append(rg, fmt.Sprintf("%s..%s", boundSig(x, L, lo), boundSig(x, L, hi)))
-							done = true
-						}
-					}
-				}
-				if !done {
-					rg = append(rg, idxSig([]Poly{ix}))
-				}
-			}
-			var gs []string
-			for _, g := range flattenGuards(e.Guards) {
-				if g.Loop {
-					continue
-				}
-				k := stripCondVersions(g)
-				if flagKey != "" {
-					k = strings.ReplaceAll(k, flagKey, "GlobalVarsMain.DAUERKULT")
-				}
-				if !strings.Contains(k, "GlobalVarsMain.") {
-					continue
-				}
-				gs = append(gs, k)
-			}
-			sort.Strings(gs)
-			k := e.Root + "[" + strings.Join(rg, ",") + "]" + " if " + strings.Join(gs, " ; ")
-			out[k] = reset{dest: e.Root, rng: strings.Join(rg, ","), guards: strings.Join(gs, " ; "), val: e.Val.String(), pos: p.Pos(e.Pos)}
-		}
-		return out
-	}
-	A := collect("hermes.ReadCropParamClassic")
-	B := collect("hermes.ReadCropParamYml")
+	A := cropResets(p, "hermes.ReadCropParamClassic")
+	B := cropResets(p, "hermes.ReadCropParamYml")
 	keys := map[string]bool{}
 	for k := range A {
 		keys[k] = true
@@ -553,4 +495,66 @@ func parseRat(s string) *big.Rat {
 		return new(big.Rat)
 	}
 	return r
+}
+
+type cropReset struct {
+	dest, rng, guards, val, pos string
+}
+
+func cropResets(p *Prog, key string) map[string]cropReset {
+	x := walked(p, key)
+	out := map[string]cropReset{}
+	if x == nil {
+		return out
+	}
+	// the perennial flag is tested through its forwarded (reader-specific) value: map it back
+	flagKey := ""
+	for _, e := range x.Events {
+		if e.Kind == "assign" && e.Root == "GlobalVarsMain.DAUERKULT" {
+			flagKey = strings.TrimPrefix(stripVersions(e.Val).String(), "")
+		}
+	}
+	for _, e := range x.Events {
+		if e.Kind != "assign" || !(strings.HasPrefix(e.Root, "GlobalVarsMain.") || strings.HasPrefix(e.Root, "CropSharedVars.")) {
+			continue
+		}
+		if _, isC := e.Val.Const(); !isC {
+			continue
+		}
+		// index ranges
+		var rg []string
+		for _, ix := range e.Idx {
+			done := false
+			for _, L := range e.Loops {
+				if L.Var != nil && ix.Equal(PAtom(L.Var)) {
+					lo, hi, unit, why := loopBounds(x, L)
+					if why == "" && unit {
+						rg = append(rg, fmt.Sprintf("%s..%s", boundSig(x, L, lo), boundSig(x, L, hi)))
+						done = true
+					}
+				}
+			}
+			if !done {
+				rg = append(rg, idxSig([]Poly{ix}))
+			}
+		}
+		var gs []string
+		for _, g := range flattenGuards(e.Guards) {
+			if g.Loop {
+				continue
+			}
+			k := stripCondVersions(g)
+			if flagKey != "" {
+				k = strings.ReplaceAll(k, flagKey, "GlobalVarsMain.DAUERKULT")
+			}
+			if !strings.Contains(k, "GlobalVarsMain.") {
+				continue
+			}
+			gs = append(gs, k)
+		}
+		sort.Strings(gs)
+		k := e.Root + "[" + strings.Join(rg, ",") + "]" + " if " + strings.Join(gs, " ; ")
+		out[k] = cropReset{dest: e.Root, rng: strings.Join(rg, ","), guards: strings.Join(gs, " ; "), val: e.Val.String(), pos: p.Pos(e.Pos)}
+	}
+	return out
 }
